@@ -1,6 +1,116 @@
-/-! Driver commands of the `Board` cluster.  `handle` returns `none` for commands that are not its own. -/
-namespace Driver.Board
+import TbotVerif.Spec.Board
+import TbotVerif.Model.ChanRun
+/-! Driver commands of the `Board` cluster (C18).  `handle` returns `none` for commands that are not its own.
 
-def handle (_toks : List String) : Option String := none
+    case  = <chunk> <cap> <ub|-> <lnx|-> <init> <stage>*
+      ub    = <autoboot Pat|~>;<keys hex>;<prompt hex>;<boot_timeout|->
+      lnx   = <askfirst hex|~>;<login hex>;<login_delay>;<user hex>;<password hex|~>;<password Pat>;
+              <no_password_timeout|->;<boot_timeout|->
+      init  = <dt>@<hex>,… | .        stage = <a|c>:<dt>@<hex>,… (`.` = no output)
+    obs   = <ok|exception tag> <uboot bootlog chars|~> <linux bootlog chars|~> <event>*
+      event = on/<t> off/<t> u/<t> b/<t> l/<t> r/<n>/<timeout|->/<t0>/<t1>/<hex|!> w/<t>/<hex>
+    `board <case>` → obs of the model; `spec C18 <case> || <obs>` → 1/0; `coop <case>` → 1/0 (`Spec.coopB`) -/
+namespace Driver.Board
+open _root_.Board
+
+def optHex (s : String) : Option (Option Bytes) :=
+  if s == "~" then some none else (Bytes.ofHex s).map some
+
+def outPiece (s : String) : Option (Nat × Bytes) :=
+  match s.splitOn "@" with
+  | [t, h] => do
+    let t ← t.toNat?
+    let h ← Bytes.ofHex h
+    if h.isEmpty then none else pure (t, h)
+  | _ => none
+
+def out (s : String) : Option Out := Wire.listOf outPiece s
+
+def stage (s : String) : Option Stage :=
+  match s.splitOn ":" with
+  | ["a", o] => (out o).map (Stage.mk .any)
+  | ["c", o] => (out o).map (Stage.mk .cr)
+  | _ => none
+
+def ubCfg (s : String) : Option (Option UbCfg) :=
+  if s == "-" then some none else
+  match s.splitOn ";" with
+  | [a, k, p, t] => do
+    let a ← if a == "~" then some none else (Pat.ofWire a).map some
+    pure (some { autoboot := a, keys := ← Bytes.ofHex k, prompt := ← Bytes.ofHex p, timeout := ← Wire.optNat t })
+  | _ => none
+
+def lnxCfg (s : String) : Option (Option LnxCfg) :=
+  if s == "-" then some none else
+  match s.splitOn ";" with
+  | [a, l, d, u, p, pp, n, t] => do
+    pure (some { askfirst := ← optHex a, login := ← Bytes.ofHex l, delay := ← d.toNat?, user := ← Bytes.ofHex u,
+                 password := ← optHex p, pwPrompt := ← Pat.ofWire pp, noPw := ← Wire.optNat n,
+                 timeout := ← Wire.optNat t })
+  | _ => none
+
+def case (toks : List String) : Option _root_.Board.Case :=
+  match toks with
+  | ch :: cap :: ub :: lnx :: ini :: sts => do
+    let ub ← ubCfg ub
+    let lnx ← lnxCfg lnx
+    if ub.isNone && lnx.isNone then none else
+    pure { chunk := ← ch.toNat?, cap := ← cap.toNat?, ub := ub, lnx := lnx, init := ← out ini,
+           stages := ← sts.mapM stage }
+  | _ => none
+
+def ev : Ev → String
+  | .pon t => s!"on/{t}" | .poff t => s!"off/{t}"
+  | .ubReady t => s!"u/{t}" | .booted t => s!"b/{t}" | .lnxReady t => s!"l/{t}"
+  | .rd r => "r/" ++ Wire.readRec r
+  | .wr t b => s!"w/{t}/{Bytes.toHex b}"
+
+def evOf (s : String) : Option Ev :=
+  match s.splitOn "/" with
+  | ["on", t] => t.toNat?.map .pon
+  | ["off", t] => t.toNat?.map .poff
+  | ["u", t] => t.toNat?.map .ubReady
+  | ["b", t] => t.toNat?.map .booted
+  | ["l", t] => t.toNat?.map .lnxReady
+  | ["w", t, b] => do pure (.wr (← t.toNat?) (← Bytes.ofHex b))
+  | ["r", n, t, a, b, d] => (Wire.readRecOf ("/".intercalate [n, t, a, b, d])).map .rd
+  | _ => none
+
+def log : Option (List Char) → String
+  | none => "~"
+  | some t => Wire.chars t
+
+def logOf (s : String) : Option (Option (List Char)) :=
+  if s == "~" then some none else (Wire.charsOf s).map some
+
+def obs (o : Obs) : String :=
+  " ".intercalate ((match o.res with | none => "ok" | some e => Wire.exc e) :: log o.ubLog :: log o.lnxLog :: o.evs.map ev)
+
+def obsOf (toks : List String) : Option Obs :=
+  match toks with
+  | r :: u :: l :: es => do
+    let r ← if r == "ok" then some none else (Wire.excOf r).map some
+    pure { res := r, ubLog := ← logOf u, lnxLog := ← logOf l, evs := ← es.mapM evOf }
+  | _ => none
+
+def splitAt2 (toks : List String) (sep : String) : List String × List String :=
+  (toks.takeWhile (· != sep), (toks.dropWhile (· != sep)).drop 1)
+
+def handle (toks : List String) : Option String :=
+  match toks with
+  | "board" :: rest =>
+    some (match case rest with
+    | some c => obs (run c)
+    | none => "bad-op")
+  | "coop" :: rest =>
+    some (match case rest with
+    | some c => if Spec.coopB c then "1" else "0"
+    | none => "bad-op")
+  | "spec" :: "C18" :: rest =>
+    let (ct, ot) := splitAt2 rest "||"
+    some (match case ct, obsOf ot with
+    | some c, some o => if Spec.C18 c o then "1" else "0"
+    | _, _ => "bad-op")
+  | _ => none
 
 end Driver.Board
